@@ -129,6 +129,7 @@ theorem conversation (c : Setup) (Q R : List (List UInt8)) (srvN : Srv) (o : Sdo
     (hM : ∀ j, j ≤ R.length →
       sent (run c.p c.kind c.cnt c.fulls (mkMails c.p.inSz c.sched (singles (R.take j)))).1 = Q.take (j + 1))
     (ho : (run c.p c.kind c.cnt c.fulls (mkMails c.p.inSz c.sched (singles R))).2 = o) :
+    round c (mailsAfter c R.length) = mailsAfter c R.length ∧
     ∀ n, R.length ≤ n → (system c n).outcome = o ∧ (system c n).objs = srvN.objs ∧
       (system c n).responses = singles R ∧ sent (system c n).trace = Q := by
   have hreq : ∀ j, j ≤ R.length → requests c (mkMails c.p.inSz c.sched (singles (R.take j))) = Q.take (j + 1) := by
@@ -159,6 +160,7 @@ theorem conversation (c : Setup) (Q R : List (List UInt8)) (srvN : Srv) (o : Sdo
     have := hround _ (Nat.le_refl R.length)
     rw [hRt, hRt1] at this
     rw [hm, this]
+  refine ⟨hfix, ?_⟩
   intro n hn
   rw [system_stable c R.length hfix n hn]
   have hq : requests c (mkMails c.p.inSz c.sched (singles R)) = Q := by
@@ -455,11 +457,11 @@ theorem readCont_normal (p : Params) (hwf : Wf p) (v : List UInt8) (hv : v.lengt
 
 /-- **the master's side of a normal/segmented upload**: given the first `j` mails of the server it has written the
 first `j + 1` requests, and with all of them it returns the object -/
-theorem read_master (p : Params) (hwf : Wf p) (cnt : Nat) (sched : List Slot) (hs : SchedOk p.inSz sched)
+theorem read_master (p : Params) (hwf : Wf p) (cnt sc : Nat) (sched : List Slot) (hs : SchedOk p.inSz sched)
     (v : List UInt8) (hv : v.length < 256 ^ 4) (j : Nat) :
     let rest := v.drop (p.inSz - 16)
-    let R := srvMail mbxCoE 1 (upNormBody p v) :: segMails p.inSz rest.length 2 0 rest
-    let Q := msgOf cnt (upReq p) :: segReqMsgs p (segMails p.inSz rest.length 2 0 rest).length (cntNext cnt) 0
+    let R := srvMail mbxCoE sc (upNormBody p v) :: segMails p.inSz rest.length (sc % 7 + 1) 0 rest
+    let Q := msgOf cnt (upReq p) :: segReqMsgs p (segMails p.inSz rest.length (sc % 7 + 1) 0 rest).length (cntNext cnt) 0
     sent (run p .read cnt (sched.map (·.full)) (mkMails p.inSz sched (singles (R.take j)))).1 = Q.take (j + 1) ∧
     (R.length ≤ j → (run p .read cnt (sched.map (·.full)) (mkMails p.inSz sched (singles (R.take j)))).2 = .ok v) := by
   intro rest R Q
@@ -474,22 +476,22 @@ theorem read_master (p : Params) (hwf : Wf p) (cnt : Nat) (sched : List Slot) (h
     simp [Q, sent]
   | succ j =>
     have hcoe : mbxCoE = mbx_COE := by decide
-    have hdec : decodeMail (padTo p.inSz (srvMail mbxCoE 1 (upNormBody p v))) = .ok (mbx_COE, upNormBody p v) := by
+    have hdec : decodeMail (padTo p.inSz (srvMail mbxCoE sc (upNormBody p v))) = .ok (mbx_COE, upNormBody p v) := by
       rw [← hcoe]
       have hl : (upNormBody p v).length ≤ p.inSz - 6 := by
         have := hwf.2.1
         simp [upNormBody, sdoBody_length]; omega
       have := hwf.2.1; have := hwf.2.2.1
       exact decodeMail_srvMail _ _ _ _ (by omega) (by omega) (by decide) (by decide)
-    obtain ⟨tr', ht, hx⟩ := exch_ok p.inSz cnt sched [] (upReq p) _ _ ((segMails p.inSz rest.length 2 0 rest).take j) hs hb hdec
+    obtain ⟨tr', ht, hx⟩ := exch_ok p.inSz cnt sched [] (upReq p) _ _ ((segMails p.inSz rest.length (sc % 7 + 1) 0 rest).take j) hs hb hdec
     rw [show cnt % mbxMod + 1 = cntNext cnt from rfl] at hx
     simp only [R, List.take_succ_cons, bind_ok hx, readCont_normal p hwf v hv, segStart]
-    have hfuel : ((segMails p.inSz rest.length 2 0 rest).take j).length <
-        (envSt p.inSz (cntNext cnt) sched.tail ((segMails p.inSz rest.length 2 0 rest).take j) tr').mails.length + 1 := by
-      have := length_le_mkMails p.inSz sched.tail ((segMails p.inSz rest.length 2 0 rest).take j)
+    have hfuel : ((segMails p.inSz rest.length (sc % 7 + 1) 0 rest).take j).length <
+        (envSt p.inSz (cntNext cnt) sched.tail ((segMails p.inSz rest.length (sc % 7 + 1) 0 rest).take j) tr').mails.length + 1 := by
+      have := length_le_mkMails p.inSz sched.tail ((segMails p.inSz rest.length (sc % 7 + 1) 0 rest).take j)
       simp only [envSt]; omega
     obtain ⟨s', r1, r2⟩ := segLoop_run p hwf rest.length rest j _ v.length [v.take (p.inSz - 16)] (v.take (p.inSz - 16)).length
-      0 (cntNext cnt) 2 sched.tail tr' (Nat.le_refl _) (by decide) (schedOk_tail _ _ hs)
+      0 (cntNext cnt) (sc % 7 + 1) sched.tail tr' (Nat.le_refl _) (by decide) (schedOk_tail _ _ hs)
       (by simp [rest]; omega) hfuel
     simp only [Nat.mul_zero] at r1
     rw [r1]
@@ -497,7 +499,7 @@ theorem read_master (p : Params) (hwf : Wf p) (cnt : Nat) (sched : List Slot) (h
     · simp only [r2, ht, Q, List.take_succ_cons, segReqMsgs_take]
       simp [sent]
     · intro hle
-      have : (segMails p.inSz rest.length 2 0 rest).length ≤ j := by simp at hle; omega
+      have : (segMails p.inSz rest.length (sc % 7 + 1) 0 rest).length ≤ j := by simp at hle; omega
       simp only [this, if_true]
       simp [rest, List.take_append_drop]
 
@@ -513,47 +515,47 @@ theorem segReqMsgs_len16 (p : Params) (n cnt stog : Nat) : ∀ q ∈ segReqMsgs 
 
 /-- what a run of the composed system looks like: outcome, the server's objects, its mails, the master's messages -/
 def RunIs (c : Setup) (o : Sdo.R (List UInt8)) (objs : List Obj) (R Q : List (List UInt8)) : Prop :=
-  ∀ n, R.length ≤ n → (system c n).outcome = o ∧ (system c n).objs = objs ∧
+  round c (mailsAfter c R.length) = mailsAfter c R.length ∧ ∀ n, R.length ≤ n → (system c n).outcome = o ∧ (system c n).objs = objs ∧
     (system c n).responses = singles R ∧ sent (system c n).trace = Q
 
 /-- the server's answer to the initiate-upload request for an object that is not expedited, in normal form -/
-theorem step_upload_long (p : Params) (hwf : Wf p) (cnt : Nat) (objs : List Obj) (o : Obj) (hobj : Holds p objs o)
+theorem step_upload_long (p : Params) (hwf : Wf p) (cnt sc : Nat) (x : Xfer) (objs : List Obj) (o : Obj) (hobj : Holds p objs o)
     (hne : ¬ (1 ≤ o.val.length ∧ o.val.length ≤ 4)) :
-    step (init p.outSz p.inSz objs) (msgOf cnt (upReq p)) =
-      (⟨p.outSz, p.inSz, objs, 2, if o.val.drop (p.inSz - 16) = [] then .idle
+    step (⟨p.outSz, p.inSz, objs, sc, x⟩ : Srv) (msgOf cnt (upReq p)) =
+      (⟨p.outSz, p.inSz, objs, sc % 7 + 1, if o.val.drop (p.inSz - 16) = [] then .idle
           else .up p.index (subOr1 p) p.sub.isNone (o.val.drop (p.inSz - 16)) 0⟩,
-       [srvMail mbxCoE 1 (upNormBody p o.val)]) := by
-  rw [step_upload (init p.outSz p.inSz objs) p hwf cnt o rfl hobj]
+       [srvMail mbxCoE sc (upNormBody p o.val)]) := by
+  rw [step_upload (⟨p.outSz, p.inSz, objs, sc, x⟩ : Srv) p hwf cnt o rfl hobj]
   by_cases h : o.val.length > p.inSz - 16
   · have : o.val.drop (p.inSz - 16) ≠ [] := by
       intro h0; have := congrArg List.length h0; simp at this; omega
-    simp [uploadAnswer, hne, respond, mail_eq, init, h, this, upNormBody]
+    simp [uploadAnswer, hne, respond, mail_eq, h, this, upNormBody]
   · have : o.val.drop (p.inSz - 16) = [] := List.drop_eq_nil_of_le (by omega)
-    simp [uploadAnswer, hne, respond, mail_eq, init, h, this, upNormBody]
+    simp [uploadAnswer, hne, respond, mail_eq, h, this, upNormBody]
 
 /-- **upload, normal or segmented** (0 or at least 5 bytes, any number of segments): the run of the composed system -/
-theorem read_long_run (p : Params) (cnt : Nat) (sched : List Slot) (objs : List Obj) (o : Obj) (hwf : Wf p)
+theorem read_long_run (p : Params) (cnt sc : Nat) (x : Xfer) (sched : List Slot) (objs : List Obj) (o : Obj) (hwf : Wf p)
     (hs : SchedOk p.inSz sched) (hobj : Holds p objs o) (hne : ¬ (1 ≤ o.val.length ∧ o.val.length ≤ 4))
     (hv : o.val.length < 256 ^ 4) :
-    RunIs ⟨p, .read, cnt, sched, objs⟩ (.ok o.val) objs
-      (srvMail mbxCoE 1 (upNormBody p o.val) ::
-        segMails p.inSz (o.val.drop (p.inSz - 16)).length 2 0 (o.val.drop (p.inSz - 16)))
+    RunIs ⟨p, .read, cnt, sched, objs, sc, x⟩ (.ok o.val) objs
+      (srvMail mbxCoE sc (upNormBody p o.val) ::
+        segMails p.inSz (o.val.drop (p.inSz - 16)).length (sc % 7 + 1) 0 (o.val.drop (p.inSz - 16)))
       (msgOf cnt (upReq p) :: segReqMsgs p
-        (segMails p.inSz (o.val.drop (p.inSz - 16)).length 2 0 (o.val.drop (p.inSz - 16))).length (cntNext cnt) 0) := by
-  have hup := step_upload_long p hwf cnt objs o hobj hne
+        (segMails p.inSz (o.val.drop (p.inSz - 16)).length (sc % 7 + 1) 0 (o.val.drop (p.inSz - 16))).length (cntNext cnt) 0) := by
+  have hup := step_upload_long p hwf cnt sc x objs o hobj hne
   obtain ⟨sN, h1, h2⟩ := serve_segs p hwf (o.val.drop (p.inSz - 16)).length (o.val.drop (p.inSz - 16))
-    ⟨p.outSz, p.inSz, objs, 2, if o.val.drop (p.inSz - 16) = [] then .idle
+    ⟨p.outSz, p.inSz, objs, sc % 7 + 1, if o.val.drop (p.inSz - 16) = [] then .idle
       else .up p.index (subOr1 p) p.sub.isNone (o.val.drop (p.inSz - 16)) 0⟩
     0 (cntNext cnt) p.index (subOr1 p) p.sub.isNone (Nat.le_refl _) (by decide) rfl rfl rfl
-  have hM := fun j => read_master p hwf cnt sched hs o.val hv j
-  have hres := conversation ⟨p, .read, cnt, sched, objs⟩
+  have hM := fun j => read_master p hwf cnt sc sched hs o.val hv j
+  have hres := conversation ⟨p, .read, cnt, sched, objs, sc, x⟩
     (msgOf cnt (upReq p) :: segReqMsgs p
-      (segMails p.inSz (o.val.drop (p.inSz - 16)).length 2 0 (o.val.drop (p.inSz - 16))).length (cntNext cnt) 0)
-    (srvMail mbxCoE 1 (upNormBody p o.val) ::
-      segMails p.inSz (o.val.drop (p.inSz - 16)).length 2 0 (o.val.drop (p.inSz - 16)))
+      (segMails p.inSz (o.val.drop (p.inSz - 16)).length (sc % 7 + 1) 0 (o.val.drop (p.inSz - 16))).length (cntNext cnt) 0)
+    (srvMail mbxCoE sc (upNormBody p o.val) ::
+      segMails p.inSz (o.val.drop (p.inSz - 16)).length (sc % 7 + 1) 0 (o.val.drop (p.inSz - 16)))
     sN (.ok o.val) (by simp [segReqMsgs_length]) ?_ ?_ (fun j _ => (hM j).1) ?_
-  · intro n hn
-    obtain ⟨a, b, c, d⟩ := hres n hn
+  · refine ⟨hres.1, fun n hn => ?_⟩
+    obtain ⟨a, b, c, d⟩ := hres.2 n hn
     exact ⟨a, by rw [b, h2], c, d⟩
   · intro q hq
     simp only [List.mem_cons] at hq
@@ -562,8 +564,8 @@ theorem read_long_run (p : Params) (cnt : Nat) (sched : List Slot) (objs : List 
     · rw [segReqMsgs_len16 p _ _ _ q hq]; exact hwf.1
   · simp only [Setup.srv, serveAll, hup, h1]
     simp [singles]
-  · have := (hM (srvMail mbxCoE 1 (upNormBody p o.val) ::
-      segMails p.inSz (o.val.drop (p.inSz - 16)).length 2 0 (o.val.drop (p.inSz - 16))).length).2 (Nat.le_refl _)
+  · have := (hM (srvMail mbxCoE sc (upNormBody p o.val) ::
+      segMails p.inSz (o.val.drop (p.inSz - 16)).length (sc % 7 + 1) 0 (o.val.drop (p.inSz - 16))).length).2 (Nat.le_refl _)
     rw [List.take_length] at this
     exact this
 
@@ -572,14 +574,14 @@ def upExpBody (p : Params) (v : List UInt8) : List UInt8 :=
   sdoBody svcSdoRes (0x43 ||| ((4 - v.length) <<< 2) ||| caBit p.sub.isNone) p.index (subOr1 p) (v ++ zeros (4 - v.length))
 
 /-- **expedited upload** (1..4 bytes): the run of the composed system -/
-theorem read_exp_run (p : Params) (cnt : Nat) (sched : List Slot) (objs : List Obj) (o : Obj) (hwf : Wf p)
+theorem read_exp_run (p : Params) (cnt sc : Nat) (x : Xfer) (sched : List Slot) (objs : List Obj) (o : Obj) (hwf : Wf p)
     (hs : SchedOk p.inSz sched) (hobj : Holds p objs o) (h1 : 1 ≤ o.val.length) (h4 : o.val.length ≤ 4) :
-    RunIs ⟨p, .read, cnt, sched, objs⟩ (.ok o.val) objs [srvMail mbxCoE 1 (upExpBody p o.val)] [msgOf cnt (upReq p)] := by
-  have hup := step_upload (init p.outSz p.inSz objs) p hwf cnt o rfl hobj
+    RunIs ⟨p, .read, cnt, sched, objs, sc, x⟩ (.ok o.val) objs [srvMail mbxCoE sc (upExpBody p o.val)] [msgOf cnt (upReq p)] := by
+  have hup := step_upload (⟨p.outSz, p.inSz, objs, sc, x⟩ : Srv) p hwf cnt o rfl hobj
   simp only [uploadAnswer, h1, h4, and_self, if_true, respond, mail_eq] at hup
   have hb : (upReq p).length < 65536 := by simp
   have hcoe : mbxCoE = mbx_COE := by decide
-  have hdec : decodeMail (padTo p.inSz (srvMail mbxCoE 1 (upExpBody p o.val))) = .ok (mbx_COE, upExpBody p o.val) := by
+  have hdec : decodeMail (padTo p.inSz (srvMail mbxCoE sc (upExpBody p o.val))) = .ok (mbx_COE, upExpBody p o.val) := by
     rw [← hcoe]
     have := hwf.2.1
     exact decodeMail_srvMail _ _ _ _ (by simp [upExpBody, sdoBody_length]; omega) (by simp [upExpBody, sdoBody_length]; omega)
@@ -589,12 +591,12 @@ theorem read_exp_run (p : Params) (cnt : Nat) (sched : List Slot) (objs : List O
   obtain ⟨s0, b1, b2⟩ := exch_blocked p.inSz cnt sched [] (upReq p) hs hb
   obtain ⟨tr', t1, t2⟩ := exch_ok p.inSz cnt sched [] (upReq p) _ _ [] hs hb hdec
   have hc : ∀ s, readCont p (upExpBody p o.val) s = (s, .ok o.val) := readCont_expedited p hwf o.val h1 h4 p.sub.isNone
-  have hres := conversation ⟨p, .read, cnt, sched, objs⟩ [msgOf cnt (upReq p)] [srvMail mbxCoE 1 (upExpBody p o.val)]
+  have hres := conversation ⟨p, .read, cnt, sched, objs, sc, x⟩ [msgOf cnt (upReq p)] [srvMail mbxCoE sc (upExpBody p o.val)]
     _ (.ok o.val) rfl (by intro q hq; simp at hq; subst hq; simp; exact hwf.1)
     (by simp only [Setup.srv, serveAll, hup]; rfl) ?_ ?_
-  · intro n hn
-    obtain ⟨a, b, c, d⟩ := hres n hn
-    exact ⟨a, by rw [b]; rfl, c, d⟩
+  · refine ⟨hres.1, fun n hn => ?_⟩
+    obtain ⟨a, b, c, d⟩ := hres.2 n hn
+    exact ⟨a, by rw [b], c, d⟩
   · intro j hj
     have : j = 0 ∨ j = 1 := by simp at hj; omega
     rcases this with rfl | rfl
@@ -608,27 +610,27 @@ theorem read_exp_run (p : Params) (cnt : Nat) (sched : List Slot) (objs : List O
 
 /-- **expedited upload**: an object of 1..4 bytes is returned byte for byte — every content, index, subindex or
 complete access, mailbox sizes, counter, and every schedule of delays, unrelated mail and drains -/
-theorem read_expedited_exact (p : Params) (cnt : Nat) (sched : List Slot) (objs : List Obj) (o : Obj) (hwf : Wf p)
+theorem read_expedited_exact (p : Params) (cnt sc : Nat) (x : Xfer) (sched : List Slot) (objs : List Obj) (o : Obj) (hwf : Wf p)
     (hs : SchedOk p.inSz sched) (hobj : Holds p objs o) (h1 : 1 ≤ o.val.length) (h4 : o.val.length ≤ 4) :
-    Eventually ⟨p, .read, cnt, sched, objs⟩ (fun r => r.outcome = .ok o.val) :=
-  ⟨_, fun n hn => (read_exp_run p cnt sched objs o hwf hs hobj h1 h4 n hn).1⟩
+    Eventually ⟨p, .read, cnt, sched, objs, sc, x⟩ (fun r => r.outcome = .ok o.val) :=
+  ⟨_, fun n hn => ((read_exp_run p cnt sc x sched objs o hwf hs hobj h1 h4).2 n hn).1⟩
 
 /-- **normal upload in one frame**: an object of 0 or 5..`inSz − 16` bytes is returned byte for byte -/
-theorem read_normal_exact (p : Params) (cnt : Nat) (sched : List Slot) (objs : List Obj) (o : Obj) (hwf : Wf p)
+theorem read_normal_exact (p : Params) (cnt sc : Nat) (x : Xfer) (sched : List Slot) (objs : List Obj) (o : Obj) (hwf : Wf p)
     (hs : SchedOk p.inSz sched) (hobj : Holds p objs o) (hne : ¬ (1 ≤ o.val.length ∧ o.val.length ≤ 4))
     (hfit : o.val.length + 16 ≤ p.inSz) :
-    Eventually ⟨p, .read, cnt, sched, objs⟩ (fun r => r.outcome = .ok o.val) :=
-  ⟨_, fun n hn => (read_long_run p cnt sched objs o hwf hs hobj hne (by have := hwf.2.2.1; omega) n hn).1⟩
+    Eventually ⟨p, .read, cnt, sched, objs, sc, x⟩ (fun r => r.outcome = .ok o.val) :=
+  ⟨_, fun n hn => ((read_long_run p cnt sc x sched objs o hwf hs hobj hne (by have := hwf.2.2.1; omega)).2 n hn).1⟩
 
 /-- **segmented upload**: an object longer than the first response can carry — any number of segments, a short last
 one included — is returned byte for byte, under every schedule (unrelated mail between the segments too) -/
-theorem read_segmented_exact (p : Params) (cnt : Nat) (sched : List Slot) (objs : List Obj) (o : Obj) (hwf : Wf p)
+theorem read_segmented_exact (p : Params) (cnt sc : Nat) (x : Xfer) (sched : List Slot) (objs : List Obj) (o : Obj) (hwf : Wf p)
     (hs : SchedOk p.inSz sched) (hobj : Holds p objs o) (_hlong : p.inSz < o.val.length + 16)
     (hv : o.val.length < 256 ^ 4) :
-    Eventually ⟨p, .read, cnt, sched, objs⟩ (fun r => r.outcome = .ok o.val) := by
+    Eventually ⟨p, .read, cnt, sched, objs, sc, x⟩ (fun r => r.outcome = .ok o.val) := by
   by_cases hexp : 1 ≤ o.val.length ∧ o.val.length ≤ 4      -- only with a 16-byte mailbox: the server answers expedited
-  · exact ⟨_, fun n hn => (read_exp_run p cnt sched objs o hwf hs hobj hexp.1 hexp.2 n hn).1⟩
-  · exact ⟨_, fun n hn => (read_long_run p cnt sched objs o hwf hs hobj hexp hv n hn).1⟩
+  · exact ⟨_, fun n hn => ((read_exp_run p cnt sc x sched objs o hwf hs hobj hexp.1 hexp.2).2 n hn).1⟩
+  · exact ⟨_, fun n hn => ((read_long_run p cnt sc x sched objs o hwf hs hobj hexp hv).2 n hn).1⟩
 
 /-! ### download segments: what the master sends, what the server makes of it and answers -/
 
@@ -884,20 +886,20 @@ theorem firstReq_length (p : Params) (v : List UInt8) (hwf : Wf p) :
 
 /-- the server on the first request of a download: it confirms, holds the value if it came in one piece and
 otherwise waits for segments with what it has -/
-theorem step_first (p : Params) (hwf : Wf p) (cnt : Nat) (objs : List Obj) (o : Obj) (v : List UInt8)
+theorem step_first (p : Params) (hwf : Wf p) (cnt sc : Nat) (x : Xfer) (objs : List Obj) (o : Obj) (v : List UInt8)
     (hobj : Holds p objs o) (hcap : v.length ≤ o.cap) (hv : v.length < 256 ^ 4) :
-    step (init p.outSz p.inSz objs) (msgOf cnt (firstReq p v)) =
-      (⟨p.outSz, p.inSz, if stop0 p v = v.length then store objs p.index (subOr1 p) p.sub.isNone v else objs, 2,
+    step (⟨p.outSz, p.inSz, objs, sc, x⟩ : Srv) (msgOf cnt (firstReq p v)) =
+      (⟨p.outSz, p.inSz, if stop0 p v = v.length then store objs p.index (subOr1 p) p.sub.isNone v else objs, sc % 7 + 1,
         if stop0 p v = v.length then .idle else .down p.index (subOr1 p) p.sub.isNone v.length (v.take (stop0 p v)) 0⟩,
-       [srvMail mbxCoE 1 (downConfBody p)]) := by
+       [srvMail mbxCoE sc (downConfBody p)]) := by
   by_cases hexp : expedited p v = true
   · obtain ⟨h1, h4, hsub⟩ := (expedited_iff p v).mp hexp
     have hca : p.sub.isNone = false := by cases h : p.sub <;> simp [h] at hsub ⊢
-    have hobj' : find (init p.outSz p.inSz objs).objs p.index (subOr1 p) false = some o := by
+    have hobj' : find (⟨p.outSz, p.inSz, objs, sc, x⟩ : Srv).objs p.index (subOr1 p) false = some o := by
       simpa [Holds, hca, init] using hobj
     simp only [firstReq, stop0, hexp, if_true]
-    rw [step_download_exp (init p.outSz p.inSz objs) p hwf cnt o v rfl hobj' h1 h4 hcap]
-    simp [respond, mail_eq, init, hca, downConfBody, caBit]
+    rw [step_download_exp (⟨p.outSz, p.inSz, objs, sc, x⟩ : Srv) p hwf cnt o v rfl hobj' h1 h4 hcap]
+    simp [respond, mail_eq,  hca, downConfBody, caBit]
   · obtain ⟨ho, hi, hi2, hidx, hsb, ho2⟩ := hwf
     obtain ⟨c1, c2, c3, c4, c5⟩ := downCmd_facts p
     have hexp' : expedited p v = false := by simpa using hexp
@@ -905,21 +907,21 @@ theorem step_first (p : Params) (hwf : Wf p) (cnt : Nat) (objs : List Obj) (o : 
     have hl := initDownReq_length p v
     have hsvc : u16 (initDownReq p v) 0 >>> 12 = 2 := by
       rw [initDownReq_eq, u16_sdoHdr0 _ _ _ _ _ (by decide)]; decide
-    rw [step_sdo _ cnt (initDownReq p v) (by omega) (by simp [init]; omega) (by omega) hsvc]
+    rw [step_sdo _ cnt (initDownReq p v) (by omega) (by simp; omega) (by omega) hsvc]
     have hcmd : byte (initDownReq p v) 2 = downCmd p := by rw [initDownReq_eq, byte_sdoHdr2 _ _ _ _ _ c1]
     rw [hcmd, c2]
     simp only [initDownload, rd16_eq_u16, rd8_eq_byte, rd32_eq_u32, c3, c4, c5]
     rw [initDownReq_eq, u16_sdoHdr3 _ _ _ _ _ hidx, byte_sdoHdr5 _ _ _ _ _ hsb, u32_sdoHdr6 _ _ _ _ _ _ hv, drop10_sdoHdr]
-    have hf : find (init p.outSz p.inSz objs).objs p.index (subOr1 p) p.sub.isNone = some o := hobj
+    have hf : find (⟨p.outSz, p.inSz, objs, sc, x⟩ : Srv).objs p.index (subOr1 p) p.sub.isNone = some o := hobj
     have h1 : ¬ v.length > o.cap := by omega
     have h2 : ¬ (v.take (min v.length (p.outSz - 16))).length > v.length := by simp; omega
     simp only [hf, h1, h2, if_false, Bool.false_eq_true]
     by_cases hall : min v.length (p.outSz - 16) = v.length
     · have : (v.take (min v.length (p.outSz - 16))).length = v.length := by simp [hall]
       have ht : v.take (min v.length (p.outSz - 16)) = v := by rw [hall]; simp
-      simp [hall, respond, mail_eq, init, downConfBody]
+      simp [hall, respond, mail_eq,  downConfBody]
     · have : (v.take (min v.length (p.outSz - 16))).length ≠ v.length := by simp; omega
-      simp [hall, respond, mail_eq, init, downConfBody]
+      simp [hall, respond, mail_eq,  downConfBody]
 
 /-- the master accepts the confirmation (index and the subindex it sent, 1 for complete access) and goes on to the segments -/
 theorem writeCont_confirm (p : Params) (hwf : Wf p) (v : List UInt8) (s : St) :
@@ -940,9 +942,9 @@ theorem stop0_le (p : Params) (v : List UInt8) : stop0 p v ≤ v.length := by
 
 /-- **the master's side of a download**: given the first `j` mails of the server it has written the first `j + 1`
 messages, and with all of them it returns -/
-theorem write_master (p : Params) (hwf : Wf p) (cnt : Nat) (sched : List Slot) (hs : SchedOk p.inSz sched)
+theorem write_master (p : Params) (hwf : Wf p) (cnt sc : Nat) (sched : List Slot) (hs : SchedOk p.inSz sched)
     (v : List UInt8) (j : Nat) :
-    let R := srvMail mbxCoE 1 (downConfBody p) :: confMails p v v.length (stop0 p v) 2 0
+    let R := srvMail mbxCoE sc (downConfBody p) :: confMails p v v.length (stop0 p v) (sc % 7 + 1) 0
     let Q := msgOf cnt (firstReq p v) :: downMsgs p v v.length (stop0 p v) (cntNext cnt) 0
     sent (run p (.write v) cnt (sched.map (·.full)) (mkMails p.inSz sched (singles (R.take j)))).1 = Q.take (j + 1) ∧
     (R.length ≤ j → (run p (.write v) cnt (sched.map (·.full)) (mkMails p.inSz sched (singles (R.take j)))).2 = .ok []) := by
@@ -958,27 +960,27 @@ theorem write_master (p : Params) (hwf : Wf p) (cnt : Nat) (sched : List Slot) (
     simp [Q, sent]
   | succ j =>
     have hcoe : mbxCoE = mbx_COE := by decide
-    have hdec : decodeMail (padTo p.inSz (srvMail mbxCoE 1 (downConfBody p))) = .ok (mbx_COE, downConfBody p) := by
+    have hdec : decodeMail (padTo p.inSz (srvMail mbxCoE sc (downConfBody p))) = .ok (mbx_COE, downConfBody p) := by
       rw [← hcoe]
       have := hwf.2.1
       exact decodeMail_srvMail _ _ _ _ (by simp [downConfBody, sdoBody_length]; omega)
         (by simp [downConfBody, sdoBody_length]) (by decide) (by decide)
     obtain ⟨tr', ht, hx⟩ := exch_ok p.inSz cnt sched [] (firstReq p v) _ _
-      ((confMails p v v.length (stop0 p v) 2 0).take j) hs hb hdec
+      ((confMails p v v.length (stop0 p v) (sc % 7 + 1) 0).take j) hs hb hdec
     rw [show cnt % mbxMod + 1 = cntNext cnt from rfl] at hx
     simp only [R, List.take_succ_cons, bind_ok hx, writeCont_confirm p hwf v, downStart]
-    have hfuel : ((confMails p v v.length (stop0 p v) 2 0).take j).length <
-        (envSt p.inSz (cntNext cnt) sched.tail ((confMails p v v.length (stop0 p v) 2 0).take j) tr').mails.length + 1 := by
-      have := length_le_mkMails p.inSz sched.tail ((confMails p v v.length (stop0 p v) 2 0).take j)
+    have hfuel : ((confMails p v v.length (stop0 p v) (sc % 7 + 1) 0).take j).length <
+        (envSt p.inSz (cntNext cnt) sched.tail ((confMails p v v.length (stop0 p v) (sc % 7 + 1) 0).take j) tr').mails.length + 1 := by
+      have := length_le_mkMails p.inSz sched.tail ((confMails p v v.length (stop0 p v) (sc % 7 + 1) 0).take j)
       simp only [envSt]; omega
-    obtain ⟨s', r1, r2⟩ := downLoop_run p hwf v v.length (stop0 p v) j _ 0 (cntNext cnt) 2 sched.tail tr'
+    obtain ⟨s', r1, r2⟩ := downLoop_run p hwf v v.length (stop0 p v) j _ 0 (cntNext cnt) (sc % 7 + 1) sched.tail tr'
       (by omega) (by decide) (schedOk_tail _ _ hs) hfuel
     simp only [Nat.mul_zero] at r1
     rw [r1]
     refine ⟨?_, ?_⟩
     · simp only [r2, ht, Q, List.take_succ_cons]; simp [sent]
     · intro hle
-      have : (confMails p v v.length (stop0 p v) 2 0).length ≤ j := by simp at hle; omega
+      have : (confMails p v v.length (stop0 p v) (sc % 7 + 1) 0).length ≤ j := by simp at hle; omega
       simp only [this, if_true]
 
 theorem downMsgs_fit (p : Params) (hwf : Wf p) (v : List UInt8) (m stop cnt stog : Nat) :
@@ -999,26 +1001,26 @@ theorem downMsgs_fit (p : Params) (hwf : Wf p) (v : List UInt8) (m stop cnt stog
 
 /-- **download of any value** (expedited, in one frame, in any number of segments; with subindex or complete access;
 the empty value too): the run of the composed system -/
-theorem write_run (p : Params) (cnt : Nat) (sched : List Slot) (objs : List Obj) (o : Obj) (v : List UInt8) (hwf : Wf p)
+theorem write_run (p : Params) (cnt sc : Nat) (x : Xfer) (sched : List Slot) (objs : List Obj) (o : Obj) (v : List UInt8) (hwf : Wf p)
     (hs : SchedOk p.inSz sched) (hobj : Holds p objs o) (hcap : v.length ≤ o.cap) (hv : v.length < 256 ^ 4) :
-    RunIs ⟨p, .write v, cnt, sched, objs⟩ (.ok []) (store objs p.index (subOr1 p) p.sub.isNone v)
-      (srvMail mbxCoE 1 (downConfBody p) :: confMails p v v.length (stop0 p v) 2 0)
+    RunIs ⟨p, .write v, cnt, sched, objs, sc, x⟩ (.ok []) (store objs p.index (subOr1 p) p.sub.isNone v)
+      (srvMail mbxCoE sc (downConfBody p) :: confMails p v v.length (stop0 p v) (sc % 7 + 1) 0)
       (msgOf cnt (firstReq p v) :: downMsgs p v v.length (stop0 p v) (cntNext cnt) 0) := by
-  have hfirst := step_first p hwf cnt objs o v hobj hcap hv
+  have hfirst := step_first p hwf cnt sc x objs o v hobj hcap hv
   have hle := stop0_le p v
   obtain ⟨sN, h1, h2⟩ := serve_down p hwf v v.length (stop0 p v)
-    ⟨p.outSz, p.inSz, if stop0 p v = v.length then store objs p.index (subOr1 p) p.sub.isNone v else objs, 2,
+    ⟨p.outSz, p.inSz, if stop0 p v = v.length then store objs p.index (subOr1 p) p.sub.isNone v else objs, sc % 7 + 1,
       if stop0 p v = v.length then .idle else .down p.index (subOr1 p) p.sub.isNone v.length (v.take (stop0 p v)) 0⟩
     0 (cntNext cnt) p.index (subOr1 p) p.sub.isNone (by omega) hle (by decide) rfl
     (fun h => by have : stop0 p v ≠ v.length := by omega
                  simp [this])
-  have hM := fun j => write_master p hwf cnt sched hs v j
-  have hres := conversation ⟨p, .write v, cnt, sched, objs⟩
+  have hM := fun j => write_master p hwf cnt sc sched hs v j
+  have hres := conversation ⟨p, .write v, cnt, sched, objs, sc, x⟩
     (msgOf cnt (firstReq p v) :: downMsgs p v v.length (stop0 p v) (cntNext cnt) 0)
-    (srvMail mbxCoE 1 (downConfBody p) :: confMails p v v.length (stop0 p v) 2 0)
-    sN (.ok []) (by simp [downMsgs_length p v v.length (stop0 p v) (cntNext cnt) 2 0]) ?_ ?_ (fun j _ => (hM j).1) ?_
-  · intro n hn
-    obtain ⟨a, b, c, d⟩ := hres n hn
+    (srvMail mbxCoE sc (downConfBody p) :: confMails p v v.length (stop0 p v) (sc % 7 + 1) 0)
+    sN (.ok []) (by simp [downMsgs_length p v v.length (stop0 p v) (cntNext cnt) (sc % 7 + 1) 0]) ?_ ?_ (fun j _ => (hM j).1) ?_
+  · refine ⟨hres.1, fun n hn => ?_⟩
+    obtain ⟨a, b, c, d⟩ := hres.2 n hn
     refine ⟨a, ?_, c, d⟩
     rw [b, h2]
     by_cases h : stop0 p v < v.length
@@ -1033,17 +1035,17 @@ theorem write_run (p : Params) (cnt : Nat) (sched : List Slot) (objs : List Obj)
     · exact downMsgs_fit p hwf v _ _ _ _ q hq
   · simp only [Setup.srv, serveAll, hfirst, h1]
     simp [singles]
-  · have := (hM (srvMail mbxCoE 1 (downConfBody p) :: confMails p v v.length (stop0 p v) 2 0).length).2 (Nat.le_refl _)
+  · have := (hM (srvMail mbxCoE sc (downConfBody p) :: confMails p v v.length (stop0 p v) (sc % 7 + 1) 0).length).2 (Nat.le_refl _)
     rw [List.take_length] at this
     exact this
 
 /-- the object ends up holding the value -/
-theorem write_target (p : Params) (cnt : Nat) (sched : List Slot) (objs : List Obj) (o : Obj) (v : List UInt8) (hwf : Wf p)
+theorem write_target (p : Params) (cnt sc : Nat) (x : Xfer) (sched : List Slot) (objs : List Obj) (o : Obj) (v : List UInt8) (hwf : Wf p)
     (hs : SchedOk p.inSz sched) (hobj : Holds p objs o) (hcap : v.length ≤ o.cap) (hv : v.length < 256 ^ 4) :
-    Eventually ⟨p, .write v, cnt, sched, objs⟩
-      (fun r => r.outcome = .ok [] ∧ target ⟨p, .write v, cnt, sched, objs⟩ r.objs = some v) := by
-  refine ⟨(srvMail mbxCoE 1 (downConfBody p) :: confMails p v v.length (stop0 p v) 2 0).length, fun n hn => ?_⟩
-  obtain ⟨a, b, _, _⟩ := write_run p cnt sched objs o v hwf hs hobj hcap hv n hn
+    Eventually ⟨p, .write v, cnt, sched, objs, sc, x⟩
+      (fun r => r.outcome = .ok [] ∧ target ⟨p, .write v, cnt, sched, objs, sc, x⟩ r.objs = some v) := by
+  refine ⟨(srvMail mbxCoE sc (downConfBody p) :: confMails p v v.length (stop0 p v) (sc % 7 + 1) 0).length, fun n hn => ?_⟩
+  obtain ⟨a, b, _, _⟩ := (write_run p cnt sc x sched objs o v hwf hs hobj hcap hv).2 n hn
   refine ⟨a, ?_⟩
   rw [b]
   simp only [target]
@@ -1054,36 +1056,36 @@ theorem write_target (p : Params) (cnt : Nat) (sched : List Slot) (objs : List O
 
 /-- **expedited download**: 1..4 bytes written with a subindex end up in the object byte for byte and the call returns —
 under every schedule, unrelated mail before the confirmation included -/
-theorem write_expedited_exact (p : Params) (cnt : Nat) (sched : List Slot) (objs : List Obj) (o : Obj) (v : List UInt8)
+theorem write_expedited_exact (p : Params) (cnt sc : Nat) (x : Xfer) (sched : List Slot) (objs : List Obj) (o : Obj) (v : List UInt8)
     (hwf : Wf p) (hs : SchedOk p.inSz sched) (_hsub : p.sub.isSome = true) (hobj : Holds p objs o)
     (_h1 : 1 ≤ v.length) (h4 : v.length ≤ 4) (hcap : v.length ≤ o.cap) :
-    Eventually ⟨p, .write v, cnt, sched, objs⟩
-      (fun r => r.outcome = .ok [] ∧ target ⟨p, .write v, cnt, sched, objs⟩ r.objs = some v) :=
-  write_target p cnt sched objs o v hwf hs hobj hcap (by omega)
+    Eventually ⟨p, .write v, cnt, sched, objs, sc, x⟩
+      (fun r => r.outcome = .ok [] ∧ target ⟨p, .write v, cnt, sched, objs, sc, x⟩ r.objs = some v) :=
+  write_target p cnt sc x sched objs o v hwf hs hobj hcap (by omega)
 
 /-- **normal and segmented download**: more than 4 bytes written with a subindex — one frame or any number of
 segments, a short last one included — end up in the object byte for byte -/
-theorem write_normal_exact (p : Params) (cnt : Nat) (sched : List Slot) (objs : List Obj) (o : Obj) (v : List UInt8)
+theorem write_normal_exact (p : Params) (cnt sc : Nat) (x : Xfer) (sched : List Slot) (objs : List Obj) (o : Obj) (v : List UInt8)
     (hwf : Wf p) (hs : SchedOk p.inSz sched) (_hsub : p.sub.isSome = true) (hobj : Holds p objs o)
     (_h5 : 4 < v.length) (hcap : v.length ≤ o.cap) (hv : v.length < 256 ^ 4) :
-    Eventually ⟨p, .write v, cnt, sched, objs⟩
-      (fun r => r.outcome = .ok [] ∧ target ⟨p, .write v, cnt, sched, objs⟩ r.objs = some v) :=
-  write_target p cnt sched objs o v hwf hs hobj hcap hv
+    Eventually ⟨p, .write v, cnt, sched, objs, sc, x⟩
+      (fun r => r.outcome = .ok [] ∧ target ⟨p, .write v, cnt, sched, objs, sc, x⟩ r.objs = some v) :=
+  write_target p cnt sc x sched objs o v hwf hs hobj hcap hv
 
 /-- **download with complete access** (no subindex), any length -/
-theorem write_complete_exact (p : Params) (cnt : Nat) (sched : List Slot) (objs : List Obj) (o : Obj) (v : List UInt8)
+theorem write_complete_exact (p : Params) (cnt sc : Nat) (x : Xfer) (sched : List Slot) (objs : List Obj) (o : Obj) (v : List UInt8)
     (hwf : Wf p) (hs : SchedOk p.inSz sched) (_hsub : p.sub = none) (hobj : Holds p objs o)
     (hcap : v.length ≤ o.cap) (hv : v.length < 256 ^ 4) :
-    Eventually ⟨p, .write v, cnt, sched, objs⟩
-      (fun r => r.outcome = .ok [] ∧ target ⟨p, .write v, cnt, sched, objs⟩ r.objs = some v) :=
-  write_target p cnt sched objs o v hwf hs hobj hcap hv
+    Eventually ⟨p, .write v, cnt, sched, objs, sc, x⟩
+      (fun r => r.outcome = .ok [] ∧ target ⟨p, .write v, cnt, sched, objs, sc, x⟩ r.objs = some v) :=
+  write_target p cnt sc x sched objs o v hwf hs hobj hcap hv
 
 /-- **download of the empty value**: the object ends up empty (a normal transfer of complete size 0) -/
-theorem write_zero_exact (p : Params) (cnt : Nat) (sched : List Slot) (objs : List Obj) (o : Obj)
+theorem write_zero_exact (p : Params) (cnt sc : Nat) (x : Xfer) (sched : List Slot) (objs : List Obj) (o : Obj)
     (hwf : Wf p) (hs : SchedOk p.inSz sched) (hobj : Holds p objs o) :
-    Eventually ⟨p, .write [], cnt, sched, objs⟩
-      (fun r => r.outcome = .ok [] ∧ target ⟨p, .write [], cnt, sched, objs⟩ r.objs = some []) :=
-  write_target p cnt sched objs o [] hwf hs hobj (by simp) (by simp)
+    Eventually ⟨p, .write [], cnt, sched, objs, sc, x⟩
+      (fun r => r.outcome = .ok [] ∧ target ⟨p, .write [], cnt, sched, objs, sc, x⟩ r.objs = some []) :=
+  write_target p cnt sc x sched objs o [] hwf hs hobj (by simp) (by simp)
 
 /-! ### what the master writes, for every script of mails (conformant server or not) -/
 
@@ -1357,7 +1359,7 @@ def Fits (p : Params) (r : Result) : Prop :=
 
 /-- **fits_mailbox**: uploads and downloads of every length, every schedule, after any number of rounds -/
 theorem fits_mailbox (c : Setup) (hwf : Wf c.p) (n : Nat) : Fits c.p (system c n) := by
-  refine ⟨?_, server_responses_fit (init c.p.outSz c.p.inSz c.objs) _ hwf.2.1⟩
+  refine ⟨?_, server_responses_fit c.srv _ hwf.2.1⟩
   cases hk : c.kind with
   | read =>
     intro m hm
@@ -1394,26 +1396,27 @@ def exObj (n : Nat) : Obj := ⟨0x2000, 1, false, 64, (List.range n).map fun i =
 example : Wf exP ∧ SchedOk exP.inSz exSched ∧ Holds exP [exObj 40] (exObj 40) ∧ exP.inSz < (exObj 40).val.length + 16 := by
   refine ⟨by unfold Wf subOr1; decide, by unfold SchedOk; decide, by unfold Holds; decide, by decide⟩
 /-- segmented upload of 40 bytes through 24-byte mailboxes (8 + 15 + 15 + 2): four requests, toggles 0, 1, 0 -/
-example : (system ⟨exP, .read, 3, exSched, [exObj 40]⟩ 4).outcome = .ok (exObj 40).val ∧
-    (sent (system ⟨exP, .read, 3, exSched, [exObj 40]⟩ 4).trace).map cmdOf = [0x40, 0x60, 0x70, 0x60] := by
+example : (system ⟨exP, .read, 3, exSched, [exObj 40], 1, .idle⟩ 4).outcome = .ok (exObj 40).val ∧
+    (sent (system ⟨exP, .read, 3, exSched, [exObj 40], 1, .idle⟩ 4).trace).map cmdOf = [0x40, 0x60, 0x70, 0x60] := by
   decide +kernel
-/-- segmented download of 40 bytes (8 + 15 + 15 + 2) into an object that held something else -/
-example : (system ⟨exP, .write (exObj 40).val, 5, exSched, [exObj 3]⟩ 4).outcome = .ok [] ∧
-    target ⟨exP, .write (exObj 40).val, 5, exSched, [exObj 3]⟩
-      (system ⟨exP, .write (exObj 40).val, 5, exSched, [exObj 3]⟩ 4).objs = some (exObj 40).val ∧
-    ((sent (system ⟨exP, .write (exObj 40).val, 5, exSched, [exObj 3]⟩ 4).trace).drop 1).map togOf = [0, 1, 0] := by
+/-- segmented download of 40 bytes (8 + 15 + 15 + 2) into an object that held something else, on a terminal whose
+mailbox service was left in the middle of an upload with its counter at 6 -/
+example : (system ⟨exP, .write (exObj 40).val, 5, exSched, [exObj 3], 6, .up 0x2000 1 false [1, 2, 3] 1⟩ 4).outcome = .ok [] ∧
+    target ⟨exP, .write (exObj 40).val, 5, exSched, [exObj 3], 6, .up 0x2000 1 false [1, 2, 3] 1⟩
+      (system ⟨exP, .write (exObj 40).val, 5, exSched, [exObj 3], 6, .up 0x2000 1 false [1, 2, 3] 1⟩ 4).objs = some (exObj 40).val ∧
+    ((sent (system ⟨exP, .write (exObj 40).val, 5, exSched, [exObj 3], 6, .up 0x2000 1 false [1, 2, 3] 1⟩ 4).trace).drop 1).map togOf = [0, 1, 0] := by
   decide +kernel
 /-- the witnesses of the former findings (findings/C16.json) now pass: 23 and 9 bytes uploaded through 24-byte
 mailboxes; 5 bytes, the empty value, and the empty value with complete access downloaded; an expedited download with
 unrelated mail before the confirmation -/
-example : (system ⟨⟨24, 24, 0x2000, some 1⟩, .read, 0, [], [exObj 23]⟩ 2).outcome = .ok (exObj 23).val ∧
-    (system ⟨⟨24, 24, 0x2000, some 1⟩, .read, 0, [], [exObj 9]⟩ 2).outcome = .ok (exObj 9).val := by decide +kernel
-example : target ⟨⟨32, 32, 0x2000, some 1⟩, .write [1, 2, 3, 4, 5], 0, [], [exObj 1]⟩
-      (system ⟨⟨32, 32, 0x2000, some 1⟩, .write [1, 2, 3, 4, 5], 0, [], [exObj 1]⟩ 1).objs = some [1, 2, 3, 4, 5] ∧
-    target ⟨⟨32, 32, 0x2000, some 1⟩, .write [], 0, [], [exObj 1]⟩
-      (system ⟨⟨32, 32, 0x2000, some 1⟩, .write [], 0, [], [exObj 1]⟩ 1).objs = some [] ∧
-    (system ⟨⟨32, 32, 0x2000, none⟩, .write [], 0, [], [⟨0x2000, 1, true, 8, [9]⟩]⟩ 1).outcome = .ok [] ∧
-    (system ⟨⟨32, 32, 0x2000, some 1⟩, .write [7, 8], 0, [⟨false, [[0, 0, 0, 0, 0, 0x12]], 0⟩], [exObj 1]⟩ 1).outcome = .ok [] := by
+example : (system ⟨⟨24, 24, 0x2000, some 1⟩, .read, 0, [], [exObj 23], 1, .idle⟩ 2).outcome = .ok (exObj 23).val ∧
+    (system ⟨⟨24, 24, 0x2000, some 1⟩, .read, 0, [], [exObj 9], 1, .idle⟩ 2).outcome = .ok (exObj 9).val := by decide +kernel
+example : target ⟨⟨32, 32, 0x2000, some 1⟩, .write [1, 2, 3, 4, 5], 0, [], [exObj 1], 1, .idle⟩
+      (system ⟨⟨32, 32, 0x2000, some 1⟩, .write [1, 2, 3, 4, 5], 0, [], [exObj 1], 1, .idle⟩ 1).objs = some [1, 2, 3, 4, 5] ∧
+    target ⟨⟨32, 32, 0x2000, some 1⟩, .write [], 0, [], [exObj 1], 1, .idle⟩
+      (system ⟨⟨32, 32, 0x2000, some 1⟩, .write [], 0, [], [exObj 1], 1, .idle⟩ 1).objs = some [] ∧
+    (system ⟨⟨32, 32, 0x2000, none⟩, .write [], 0, [], [⟨0x2000, 1, true, 8, [9]⟩], 1, .idle⟩ 1).outcome = .ok [] ∧
+    (system ⟨⟨32, 32, 0x2000, some 1⟩, .write [7, 8], 0, [⟨false, [[0, 0, 0, 0, 0, 0x12]], 0⟩], [exObj 1], 1, .idle⟩ 1).outcome = .ok [] := by
   decide +kernel
 example : altCmds 3 0 = [0x60, 0x70, 0x60] ∧ altBits 3 0 = [0, 1, 0] := by decide
 
